@@ -38,4 +38,34 @@ Definition fa_set_slice (l : list B) (a b : nat) (data : list B) : option (list 
   else if (b <? a) || negb (length data =? b - a) then None
   else Some (firstn a (zext l a) ++ data ++ skipn b l).
 
+(* ---- operation sequences on the flat array ---- *)
+
+Inductive fop : Type :=
+| FAppend (data : list B)
+| FSetByte (off : nat) (x : B)
+| FSetSlice (a b : nat) (data : list B)
+| FCopyWithin (dst a b : nat)          (* write a[a:b] (read first) at dst *)
+| FAppendSelf (a b : nat).             (* append a[a:b] *)
+
+Definition or_same (l : list B) (r : option (list B)) : list B :=
+  match r with Some l' => l' | None => l end.
+
+(* a rejected write leaves the array as it was *)
+Definition fa_apply (l : list B) (o : fop) : list B :=
+  match o with
+  | FAppend d => fa_append l d
+  | FSetByte off x => fa_set_byte l off x
+  | FSetSlice a b d => or_same l (fa_set_slice l a b d)
+  | FCopyWithin dst a b => or_same l (fa_set_slice l dst (dst + (b - a)) (fa_slice l a b))
+  | FAppendSelf a b => fa_append l (fa_slice l a b)
+  end.
+
+Definition fa_run (ops : list fop) : list B := fold_left fa_apply ops [].
+
 End FlatArray.
+
+Arguments FAppend {B}.
+Arguments FSetByte {B}.
+Arguments FSetSlice {B}.
+Arguments FCopyWithin {B}.
+Arguments FAppendSelf {B}.
